@@ -400,14 +400,14 @@ def run(ctx):
         for g in p['geometries']:
             nvalues += sum(len(s['data']) for s in g['sources'])
     corr = {
-        'evaluations': len(progs) + len(files),
+        'evaluations': len(progs) + len(files) + len(nterms),
         'distinct_nontrivial': len(seen),
         'rule': 'constructor programs over the public API (asset, images, effects with surfaces/samplers/maps, materials, '
                 'geometries with 0-3 primitives of every kind and shared/distinct/mixed/gapped input layouts, all lights and '
                 'cameras, library nodes, scenes with nested nodes, every transform and instance kind, node instancing); '
                 'source values are arbitrary doubles < 1e9 incl. the coarse float32 binades, parameters have <= 7 digits; '
                 '12 % re-read in the 1.5 namespace, 12 % without <scene>; non-trivial = at least four distinct features; '
-                'distinct = different program; plus every shipped document',
+                'distinct = different program; plus every shipped document; plus the NumFmt values compared inside Coq',
         'samples': [{'program_features': sorted(c01gen.features(p)), 'stage_error': r.get('error'), 'bytes': r.get('sizes')}
                     for p, r in list(zip(progs, results))[ncorpus_progs:ncorpus_progs + 3]],
         'distribution': {'features': feats, 'documents': derived, 'source_values': nvalues,
